@@ -588,6 +588,35 @@ func runC04(ctx *core.Ctx) {
 				if !wraps {
 					ok = false
 				}
+				// reverse order: the new function runs first, the previous chain by defer after it
+				if isMC {
+					cf := mc.Fn.(*ssa.Function)
+					cg := graph(p, cf)
+					defersOld, callsNew := false, false
+					cg.Instrs(func(i ssa.Instruction) {
+						switch x := i.(type) {
+						case *ssa.Defer:
+							if u, isU := x.Call.Value.(*ssa.UnOp); isU {
+								if fv, isFV := u.X.(*ssa.FreeVar); isFV && fv.Name() == "old" {
+									defersOld = true
+								}
+							}
+							if fv, isFV := x.Call.Value.(*ssa.FreeVar); isFV && fv.Name() == "old" {
+								defersOld = true
+							}
+						case *ssa.Call:
+							if fv, isFV := x.Call.Value.(*ssa.FreeVar); isFV && fv.Name() == "f" {
+								callsNew = true
+							}
+							if u, isU := x.Call.Value.(*ssa.UnOp); isU {
+								if fv, isFV := u.X.(*ssa.FreeVar); isFV && fv.Name() == "f" {
+									callsNew = true
+								}
+							}
+						}
+					})
+					ctx.Check(defersOld && callsNew, "I7", "testscript.Defer#reverse-order", st.Pos(), "the chain link calls the newly registered function and runs the previous chain by defer afterwards, so functions run in reverse order of registration and the older ones still run if a newer one panics")
+				}
 				continue
 			}
 			if w.Fn.Parent() == runT || w.Fn == runT {
